@@ -238,8 +238,8 @@ class Gen:
         rng = self.rng
         nkeys = rng.randrange(0, 4)
         keys = rng.sample(KEYS, nkeys)
+        mas = self.map_anchors()          # only anchors defined before this map starts can be merged anywhere in it
         es = [[k, self.value(depth)] for k in keys]
-        mas = self.map_anchors()
         if mas and (force_merge or rng.random() < 0.6):
             r = rng.random()
             if r < 0.5:
